@@ -14,7 +14,7 @@ RULE = ("histories of 3-7 recycling schema validations whose schemas carry a cal
 
 
 def correspond(ctx, C):
-    n = 150 if ctx.tier == "quick" else 8000
+    n = 600 if ctx.tier == "quick" else 12000
     if ctx.search:
         n *= 3
     rows, crash = H.run(C, "historypanic", n, ctx.seed, ctx.tier, replay=S.replay_file(ctx, C))
